@@ -4,10 +4,12 @@
 //!
 //! usage: vh-e2e key=value ...      (all parameters have defaults; see `Cfg`)
 mod app;
+mod attacks;
 mod cfg;
 mod icpt;
 mod net;
 mod sub;
+mod tpw;
 mod trace;
 
 use cfg::Cfg;
